@@ -107,6 +107,11 @@ func (c *CRLRevocationChecker) Cleanup() error {
 	if c.crlUpdateTicker != nil {
 		c.crlUpdateTicker.Stop()
 	}
+	if c.crlUpdateStop != nil {
+		//stop the update goroutine
+		close(c.crlUpdateStop)
+		c.crlUpdateStop = nil
+	}
 	return nil
 }
 func (c *CRLRevocationChecker) addCrlUrlsFromConfig(chains *core.CertificateChains) error {
@@ -149,8 +154,10 @@ func (c *CRLRevocationChecker) addCrlFilesFromConfig(chains *core.CertificateCha
 
 func (c *CRLRevocationChecker) initCRLUpdateTicker() {
 	parsed := c.crlConfig.UpdateIntervalParsed
-	c.crlUpdateTicker = time.NewTicker(parsed)
-	c.crlUpdateStop = make(chan struct{})
+	ticker := time.NewTicker(parsed)
+	stop := make(chan struct{})
+	c.crlUpdateTicker = ticker
+	c.crlUpdateStop = stop
 	go func() {
 		defer func() {
 			if err := recover(); err != nil {
@@ -160,9 +167,9 @@ func (c *CRLRevocationChecker) initCRLUpdateTicker() {
 		c.updateCRLs(false)
 		for {
 			select {
-			case <-c.crlUpdateStop:
+			case <-stop:
 				return
-			case <-c.crlUpdateTicker.C:
+			case <-ticker.C:
 				go c.updateCRLs(false)
 			}
 		}
